@@ -65,6 +65,9 @@ pub enum Variant {
     /// the debiting transaction is a *create transaction* whose constructor calls the delegated
     /// account (a violation has to restore the create transaction's sender nonce by hand)
     ViaCreateTx,
+    /// the delegated code earns an execution refund (clears a storage slot of the account) before
+    /// it moves the value: a charged revert discards that refund with the rest of the execution
+    WithRefund,
 }
 
 #[derive(Clone, Copy, Debug, PartialEq, Eq)]
@@ -125,6 +128,15 @@ pub fn block_ext(debit: Debit, variant: Variant, bal: Bal, k: usize, spec: SpecI
     db.deploy(contract(44), kit::relay(a(), kit::CallKind::Call, true, false));
     db.deploy(contract(46), kit::relay(a(), kit::CallKind::Call, false, false));
     db.deploy(contract(47), kit::spender2());
+    // clears slot 7 of the executing account (refund), then spends like `spender`
+    db.deploy(contract(48), {
+        let mut c = Asm::new().push(0).push(7).op(op::SSTORE).build();
+        c.extend_from_slice(&kit::spender());
+        c
+    });
+    if variant == Variant::WithRefund {
+        db.set_storage(a(), 7, 1);
+    }
     // echo: returns the received value to its caller
     db.deploy(
         contract(45),
@@ -133,6 +145,7 @@ pub fn block_ext(debit: Debit, variant: Variant, bal: Bal, k: usize, spec: SpecI
     let two = matches!(variant, Variant::DustAfter | Variant::DustBefore);
     let target = match debit {
         Debit::CallValue if two => contract(47),
+        Debit::CallValue if variant == Variant::WithRefund => contract(48),
         Debit::CallValue | Debit::None | Debit::OwnTopLevelValue => contract(SPENDER),
         Debit::CreateEndowment => contract(ENDOWER),
         Debit::SelfDestruct => contract(BOMB),
@@ -255,6 +268,9 @@ pub fn reserve_job(b: &Block, policy: bool, run0: &RunCfg, gran: Granularity, bo
     let case = b.case.clone();
     let (violation, debit_tx, later, a_bal) = (b.violation && policy, b.debit_tx, b.later.clone(), b.a_balance_if_violation);
     let fundable = b.fundable;
+    // the charged revert keeps the authorisation refund only: without an authorisation list in the
+    // debiting transaction nothing may be refunded
+    let has_auth_list = !b.case.txs[b.debit_tx].authorization_list.is_empty();
     let seq_run = {
         let mut r = RunCfg::sequential();
         r.safety = run.safety;
@@ -283,12 +299,12 @@ pub fn reserve_job(b: &Block, policy: bool, run0: &RunCfg, gran: Granularity, bo
         };
         match &obs.outcomes[debit_tx] {
             TxExecutionOutcome::Executed(ExecutionResult::Revert { gas, output, .. })
-                if output.is_empty() && gas.total_gas_spent() == stock_gas => {}
+                if output.is_empty() && gas.total_gas_spent() == stock_gas && (has_auth_list || gas.inner_refunded() == 0) => {}
             other => {
                 return Judgement::Violation {
                     key: "reserve-not-enforced".into(),
                     detail: format!(
-                        "the rule reports a violation: tx {debit_tx} must be a charged top-level Revert with empty output and {stock_gas} gas spent, got {other:?}"
+                        "the rule reports a violation: tx {debit_tx} must be a charged top-level Revert with empty output, {stock_gas} gas spent and no execution refund, got {other:?}"
                     ),
                 }
             }
@@ -350,8 +366,9 @@ pub fn blocks(spec: SpecId) -> Vec<Block> {
             Variant::DustAfter,
             Variant::DustBefore,
             Variant::ViaCreateTx,
+            Variant::WithRefund,
         ] {
-            if matches!(variant, Variant::Refunded | Variant::DustAfter | Variant::DustBefore | Variant::ViaCreateTx) && debit != Debit::CallValue {
+            if matches!(variant, Variant::Refunded | Variant::DustAfter | Variant::DustBefore | Variant::ViaCreateTx | Variant::WithRefund) && debit != Debit::CallValue {
                 continue;
             }
             if debit == Debit::OwnTopLevelValue && variant != Variant::Plain {
